@@ -1622,7 +1622,19 @@ class Interp:
                 return self._inline(cm_, val_, [inst], {}, self_class=cref)
             return BoundMethod(inst, cm_, val_, cref)
         if val_ is not None and not isinstance(val_, ast.ClassDef):
-            v_ = self.a.folder.fold(val_, cm_, None, cref)
+            try:
+                v_ = self.a.folder.fold(val_, cm_, None, cref)
+                if _has_call_ref(v_):
+                    raise Unfoldable('result of a library call')
+            except Unfoldable:
+                # a class-level expression the folder does not know (re.compile(...), a comprehension): interpreted once per world
+                v_ = Interp(self.a, cm_, {}, world=self.world, call_models=self.call_models, inline_pkg=True, depth=self.depth + 1).ev(val_)
+                for cm2_, cnode2_ in self.a.res.mro(cref):
+                    if any(isinstance(st_, ast.Assign) and any(isinstance(t_, ast.Name) and t_.id == attr for t_ in st_.targets)
+                           for st_ in cnode2_.body):
+                        self.world.classattrs[(self.a.res.class_ref(cm2_, cnode2_), attr)] = v_
+                        break
+                return v_
             if isinstance(v_, (dict, list, set)):
                 for cm2_, cnode2_ in self.a.res.mro(cref):
                     if any(isinstance(st_, ast.Assign) and any(isinstance(t_, ast.Name) and t_.id == attr for t_ in st_.targets)
